@@ -324,6 +324,8 @@ class Gen:
         attrs = clean_attrs(it)
         start_line = src.line_of(it.sig_start)
         self.raw(f"// @fn {key} mode={mode} props={','.join(spec.get('props', []))} src={src.rel}:{start_line}")
+        if spec.get("attrs"):
+            self.raw(spec["attrs"])
         if prefix_attrs:
             self.raw(prefix_attrs)
         for a in attrs:
